@@ -16,7 +16,7 @@ func init() {
 	engine.Register(&engine.Check{
 		ID:        "C14",
 		Title:     "The corridor around a line contains the line and stays within its search box",
-		Technique: "stateless exploration (E1) of segments x radii x skip flag with the runtime's map-iteration start owned as an environment choice (<= 1 deviation quick, <= 2 thorough); relational oracle against the library's own line, layer-fit and N-layer functions plus an independent ECEF segment-to-footprint distance",
+		Technique: "stateless exploration (E1) of segments x radii x skip flag with the runtime's map-iteration start owned as an environment choice (<= 1 deviation over 16 starts per point in quick; thorough: <= 1 deviation over 64 starts on the wide alphabets plus <= 2 deviations over 8 starts on the quick alphabets); relational oracle against the library's own line, layer-fit and N-layer functions plus an independent ECEF segment-to-footprint distance",
 		Assumptions: []string{
 			"segments limited to <= 12 line voxels, radii to <= 2.5 local voxel widths and to values for which the layer fit terminates (fewer layers than half the grid)",
 			"the independent distance uses the planar quadrilateral through the four footprint corners at altitude 0 and allows radius*1.01 + 100 m",
@@ -24,24 +24,21 @@ func init() {
 		},
 		Phases: func(tier string) []engine.Phase {
 			var hs []int64
-			dev := 1
-			if tier == "thorough" {
-				dev = 2
-			}
+			dev := 1 // the wide phase; thorough adds a second phase with two deviations
 			mults := []float64{0, 0.3, 1.5}
 			offs := [][3]float64{{0, 0, 0}, {1, 0, 0}, {0, 0, 1}, {-2.5, 2.5, 1}, {0, 4, -1}}
 			mapCap := 16
 			hs = []int64{2, 3, 4, 5, 18, 35}
+			qhs, qmults, qoffs := hs, mults, offs
 			if tier == "thorough" {
 				mults = []float64{0, 0.3, 1, 1.5, 2.5}
 				offs = [][3]float64{{0, 0, 0}, {1, 0, 0}, {0, 1, 0}, {0, 0, 1}, {2.5, -1, 0}, {-2.5, 2.5, 1}, {0, 4, -1}, {3, 3, 2.5}}
-				mapCap = 16 // two deviations x 64 starts x ~6 map points per query does not finish in the budget
+				mapCap = 64
 				hs = []int64{2, 3, 4, 5, 6, 10, 18, 25, 31, 35}
 			}
-
-			return []engine.Phase{
-				{Name: "corridor", ShardDepth: 3, Bounds: engine.Bounds{EnvDev: dev, InputDev: -1},
-					Rule: "full product h x v in {h, h-1, 0} x base voxel (mid-grid north, equator, far south) x end offset (8 shapes, <= 12 line voxels) x radius in {0,0.3,1,1.5,2.5} local voxel widths x skip flag, each under all map-iteration executions within the deviation bound; oracle: duplicate-free, requested zooms, superset of the line IDs, radius 0 => exactly the line IDs, every added ID inside the N-layer box of the line for the maximal fitted layers, measured subset of skipped, no added voxel farther than the radius (independent ECEF distance), identical set across executions; non-trivial = distinct (segment, radius, flag) whose result has more IDs than the line",
+			corridorPhase := func(name, note string, dev, mapCap int, hs []int64, mults []float64, offs [][3]float64) engine.Phase {
+				return engine.Phase{Name: name, ShardDepth: 3, Bounds: engine.Bounds{EnvDev: dev, InputDev: -1},
+					Rule: note + "full product h x v in {h, h-1, 0} x base voxel (mid-grid north, equator, far south) x end offset (8 shapes, <= 12 line voxels) x radius in {0,0.3,1,1.5,2.5} local voxel widths x skip flag, each under all map-iteration executions within the deviation bound; oracle: duplicate-free, requested zooms, superset of the line IDs, radius 0 => exactly the line IDs, every added ID inside the N-layer box of the line for the maximal fitted layers, measured subset of skipped, no added voxel farther than the radius (independent ECEF distance), identical set across executions; non-trivial = distinct (segment, radius, flag) whose result has more IDs than the line",
 					Body: func(c *engine.Ctx) {
 						h := hs[c.In("h", len(hs))]
 						vsel := c.In("v", 3)
@@ -70,7 +67,15 @@ func init() {
 						width := 4.0075016686e7 * math.Cos(lat0*math.Pi/180) / float64(n)
 						radius := mult * width
 						judgeCorridor(c, s, e, radius, h, v, skip, mapCap, "")
-					}},
+					}}
+			}
+
+			phases := []engine.Phase{corridorPhase("corridor", "", dev, mapCap, hs, mults, offs)}
+			if tier == "thorough" {
+				// two deviations do not finish on the wide alphabet: they get the quick alphabet and 8 iteration starts per map point
+				phases = append(phases, corridorPhase("corridor-two-deviations", "(<= 2 map-iteration deviations, 8 starts per point, quick alphabets) ", 2, 8, qhs, qmults, qoffs))
+			}
+			return append(phases, []engine.Phase{
 				{Name: "same-radius-sequences", Serial: true, Bounds: engine.Bounds{EnvDev: 0, InputDev: -1},
 					Rule: "sequences of three corridor queries in ONE execution with bit-identical (hZoom, vZoom, radius) at different latitudes (75N, equator, 60S and permutations; the voxel width differs by up to 4x) x h in {5,10,18,22} x 2 radii x skip flag: each query of the sequence must satisfy the full oracle (in particular stay inside the box fitted for ITS line), so state carried from one query to the next shows; non-trivial = distinct sequences",
 					Body: func(c *engine.Ctx) {
@@ -110,7 +115,7 @@ func init() {
 							c.Violation("C14:corridor:no-error-for-invalid-argument", map[string]any{"radius": r, "zooms": z, "skip": skip})
 						}
 					}},
-			}
+			}...)
 		},
 	})
 }
